@@ -62,6 +62,7 @@ class PTracer:
         self.res = []
         self.calls = []
         self.cur_calls = []
+        self.new_wids = []
         self.nwid = 0
         self.inited = False
         self.skipped = 0
@@ -129,6 +130,7 @@ class PTracer:
 
     def do_register(self, req, prog):
         self.nwid += 1
+        self.new_wids.append(self.nwid)
         orig = dict(req)
         cb = Cb(self, self.nwid, prog, orig, dict(req))
         self.rm.reserve_resources_with_callback(orig, cb)
@@ -143,10 +145,11 @@ class PTracer:
 
         def step():
             self.cur_calls = []
+            self.new_wids = []
             try:
                 orig()
             finally:
-                self.log({'op': 'step', 'calls': self.cur_calls})
+                self.log({'op': 'step', 'calls': self.cur_calls, 'newwids': list(self.new_wids)})
         env.step = step
 
     def apply(self, op):
